@@ -18,6 +18,11 @@ N = "libp2p_noise"
 VERIFY = r"libp2p_identity::PublicKey::verify$"
 DOMAIN = r"protocol::STATIC_KEY_DOMAIN$"
 
+SELFTEST = [
+    {"mutation": "is_some_and -> is_none_or (seeded/C16)", "caught_by": "finish/Ok requires a valid signature"},
+    {"mutation": "Ok((self.identity.public, ..)) instead of the verified key", "caught_by": "finish/returned key is the verified identity key"},
+    {"neutral": "neutral/sec/03 (renamed locals / closure parameter); `ok_or_else(..)?` -> match; `is_some_and(closure)` -> `match &sig { Some(s) => key.verify(..), None => false }`", "silent": True},
+]
 
 def is_ok_of_self_field(e, field):
     """e is the success payload of `self.<field>` (`self.f?`, `self.f.ok_or(..)?`, `match self.f { Some(k) => k ..}`)."""
@@ -67,6 +72,15 @@ def check(ctx):
                 return len(r0) == 1 and r0[0][0] == "call" and re.search(VERIFY, strip_generics(r0[0][1])) is not None
         return False
     valid, invalid = S.truth_edges(f, sig_test)
+    # "verification fails" includes "no signature was received": close the failing edges over a hoisted `let is_valid = match sig {..}`
+    _, no_sig = S.outcome_edges(f, lambda v: S.self_field(v, "dh_remote_pubkey_sig"))
+
+    def fails(e, r, lab):
+        c, neg = e, False
+        while c[0] == "un" and c[1] == "Not":
+            c, neg = c[2], not neg
+        return sig_test(c) and ((lab == "true") != neg) is False
+    invalid = f.derive_edges(set(invalid) | set(no_sig), fails)
     have_key, _ = S.outcome_edges(f, lambda v: S.self_field(v, "id_remote_pubkey"))
     for s in oks:
         S.guarded(ctx, "finish", "Ok requires a valid signature", s, valid, "is_valid_signature")
